@@ -236,3 +236,22 @@ def run_exec(case):
 
 
 HANDLERS['exec'] = run_exec
+
+
+def run_from_bitarray(case):
+    """Cls.from_bitarray(instr, processor) of a concrete encoding class on a built state; returns
+    [0] + option-opcode encoding, or the exception encoding"""
+    import implrun
+    import importlib
+    arm = build(case['state'])
+    mod = importlib.import_module(case['module'])
+    cls = getattr(mod, case['cls'])
+    try:
+        with contextlib.redirect_stdout(io.StringIO()):
+            op = cls.from_bitarray(case['instr'], arm)
+    except Exception as e:  # noqa
+        return implrun.exn_enc(e)
+    return [0] + opcode_enc(op)
+
+
+HANDLERS['from_bitarray'] = run_from_bitarray
